@@ -3,7 +3,7 @@
 usage: try_patch.py [--revert <commit> | --patch <file> | --at <commit>] PROP [PROP...]
 Prints one line per property: FIRED (violations with keys) or SILENT. Cleans up after itself
 (the worktree is kept between calls for speed; --cleanup removes it)."""
-import os, subprocess, sys, shutil, json
+import os, subprocess, sys, shutil, json, re
 V = os.path.dirname(os.path.dirname(os.path.abspath(__file__)))
 W = os.environ.get("CFDP_SCRATCH", "/tmp/w/scratch")
 TAG = os.environ.get("CFDP_TAG", "scratch")
@@ -66,7 +66,7 @@ def main():
         p = ch.split("\n", 1)[0].strip()
         body = ch.split("\n", 1)[1] if "\n" in ch else ""
         viol = [l.strip() for l in body.splitlines() if l.strip().startswith(("rule violated:", "UNDECIDED", "ANCHOR-MISSING"))]
-        if "INTERNAL" in body or "Traceback (most recent call last)" in body:
+        if re.search(r"^INTERNAL:", body, re.M) or "Traceback (most recent call last)" in body:
             print(p, "INTERNAL", body[-600:])
         elif viol:
             print(p, "FIRED", len(viol)); [print("    ", v[:230]) for v in viol[:6]]
